@@ -97,6 +97,8 @@ def decode_params(body: bytes) -> list[tuple[int, bytes]]:
     pos = 0
     while pos <= len(body) - 4:
         param_type, param_length = unpack_from("!HH", body, pos)
+        if param_length < 4:
+            raise ValueError(f"SCTP parameter has an invalid length of {param_length}")
         params.append((param_type, body[pos + 4 : pos + param_length]))
         pos += param_length + padl(param_length)
     return params
@@ -185,6 +187,8 @@ class DataChunk(Chunk):
     def __init__(self, flags: int = 0, body: Optional[bytes] = None) -> None:
         self.flags = flags
         if body:
+            if len(body) < 12:
+                raise ValueError("SCTP DATA chunk is too short")
             (self.tsn, self.stream_id, self.stream_seq, self.protocol) = unpack_from(
                 "!LHHL", body
             )
@@ -233,6 +237,8 @@ class ForwardTsnChunk(Chunk):
         self.flags = flags
         self.streams: list[tuple[int, int]] = []
         if body:
+            if len(body) < 4 or len(body) % 4:
+                raise ValueError("SCTP FORWARD TSN chunk has an invalid length")
             self.cumulative_tsn = unpack_from("!L", body, 0)[0]
             pos = 4
             while pos < len(body):
@@ -269,6 +275,8 @@ class BaseInitChunk(Chunk):
     def __init__(self, flags: int = 0, body: Optional[bytes] = None) -> None:
         self.flags = flags
         if body:
+            if len(body) < 16:
+                raise ValueError("SCTP INIT / INIT ACK chunk is too short")
             (
                 self.initiate_tag,
                 self.advertised_rwnd,
@@ -319,12 +327,16 @@ class SackChunk(Chunk):
         self.gaps = []
         self.duplicates = []
         if body:
+            if len(body) < 12:
+                raise ValueError("SCTP SACK chunk is too short")
             (
                 self.cumulative_tsn,
                 self.advertised_rwnd,
                 nb_gaps,
                 nb_duplicates,
             ) = unpack_from("!LLHH", body)
+            if len(body) < 12 + 4 * (nb_gaps + nb_duplicates):
+                raise ValueError("SCTP SACK chunk gap / duplicate lists are truncated")
             pos = 12
             for i in range(nb_gaps):
                 self.gaps.append(unpack_from("!HH", body, pos))
@@ -367,6 +379,8 @@ class ShutdownChunk(Chunk):
     def __init__(self, flags: int = 0, body: Optional[bytes] = None) -> None:
         self.flags = flags
         if body:
+            if len(body) < 4:
+                raise ValueError("SCTP SHUTDOWN chunk is too short")
             self.cumulative_tsn = unpack_from("!L", body)[0]
         else:
             self.cumulative_tsn = 0
@@ -475,6 +489,8 @@ class StreamResetOutgoingParam:
 
     @classmethod
     def parse(cls, data: bytes) -> "StreamResetOutgoingParam":
+        if len(data) < 12 or len(data) % 2:
+            raise ValueError("Outgoing SSN reset request parameter has an invalid length")
         request_sequence, response_sequence, last_tsn = unpack_from("!LLL", data)
         streams = []
         for pos in range(12, len(data), 2):
@@ -498,6 +514,8 @@ class StreamAddOutgoingParam:
 
     @classmethod
     def parse(cls, data: bytes) -> "StreamAddOutgoingParam":
+        if len(data) < 8:
+            raise ValueError("Add outgoing streams request parameter is too short")
         request_sequence, new_streams, reserved = unpack_from("!LHH", data)
         return cls(request_sequence=request_sequence, new_streams=new_streams)
 
@@ -512,6 +530,8 @@ class StreamResetResponseParam:
 
     @classmethod
     def parse(cls, data: bytes) -> "StreamResetResponseParam":
+        if len(data) < 8:
+            raise ValueError("Re-configuration response parameter is too short")
         response_sequence, result = unpack_from("!LL", data)
         return cls(response_sequence=response_sequence, result=result)
 
@@ -1003,7 +1023,12 @@ class RTCSctpTransport(AsyncIOEventEmitter):
             for param in chunk.params:
                 cls = RECONFIG_PARAM_TYPES.get(param[0])
                 if cls is not None:
-                    await self._receive_reconfig_param(cls.parse(param[1]))
+                    try:
+                        reconfig_param = cls.parse(param[1])
+                    except ValueError:
+                        # ignore the malformed parameter
+                        continue
+                    await self._receive_reconfig_param(reconfig_param)
 
         # server
         elif isinstance(chunk, InitChunk) and self.is_server:
